@@ -27,6 +27,11 @@
    Parameters (Section variables, instantiated from coq/Generated.v):
      clear_on_catch   exception_catch clears `active` when it hands the exception out (repair D3)
      busy_result      what Mutex_Trylock returns on EBUSY (false in the source)
+     walk_foreign     false = Thread_Mark walks only the CURRENT thread's TLS table (repaired source);
+                      true = the pre-repair code: a collection that reaches another thread's Thread object
+                      walks that thread's TLS table while its owner may be changing it, and type_of()
+                      writes `head->type = Type` into half written slots — modelled as the loss of a
+                      binding in every other running thread's TLS (refuted in the proofs)
      shared_exc       false = the exception record is found through the thread's TLS
                       (Exception_Current = get(current(Thread), "__Exception")); true = the
                       hypothetical variant with ONE process-wide record (refuted in the proofs). *)
@@ -125,6 +130,7 @@ Section Model.
 Variable clear_on_catch : bool.
 Variable busy_result : bool.
 Variable shared_exc : bool.
+Variable walk_foreign : bool.
 
 (* longjmp to the innermost pending try with exception depth d >= 1: the jump lands in the
    `else { exception_try_fail(); } exception_try_end();` part, then exception_catch either
@@ -295,6 +301,15 @@ Definition release (g : gstate) (t : tid) (l : lstate) (s : sstate) (m : mid) : 
   | None => set_thr g t (l, set_ub s)
   end.
 
+(* pre-repair Thread_Mark: the collecting thread t damages the TLS of the other running threads *)
+Fixpoint walk_others (t i : tid) (l : list (lstate * sstate)) : list (lstate * sstate) :=
+  match l with
+  | [] => []
+  | (lx, sx) :: r =>
+      (if (i =? t) || negb (started sx) || done lx then (lx, sx) else (set_tls lx (tl (tls lx)), sx))
+      :: walk_others t (S i) r
+  end.
+
 Definition gstep (t : tid) (g : gstate) : gstate :=
   if aborted g then g else
   match nth_error (thr g) t with
@@ -333,6 +348,10 @@ Definition gstep (t : tid) (g : gstate) : gstate :=
         | Some (lu, _) => advance g t l (add_seen s (u, out lu))
         | None => set_thr g t (l, set_ub s)
         end
+    | KOp OCollect :: _ =>
+        if walk_foreign
+        then advance (mkG (walk_others t 0 (thr g)) (mtx g) (cells g) (gexc g) (aborted g)) t l s
+        else advance g t l s
     | _ => advance g t l s
     end
   end.
